@@ -150,7 +150,13 @@ fn child() {
         let tg = if v.as_bool().unwrap() { vec!["a".to_string(), "x".to_string()] } else { vec!["a".to_string()] };
         let (mut c, _) = RecCollector::new(d, FilterRec { thr: 5, tgts: tg, kind: "static".into(), hint: None }, log.clone());
         c.alias_on_clone = beh["alias"].as_array().and_then(|a| a.get(i)).and_then(|x| x.as_bool()).unwrap_or(false);
-        disp.insert(d, Dispatch::new(c));
+        // the collector is installed plainly, boxed or arc'd: the protocol seen by the collector must be the same
+        let wrap = beh["wrap"].as_array().and_then(|a| a.get(i)).and_then(|x| x.as_str()).unwrap_or("plain");
+        disp.insert(d, match wrap {
+            "box" => Dispatch::new(Box::new(c) as Box<dyn tracing_core::Collect + Send + Sync>),
+            "arc" => Dispatch::new(Arc::new(c) as Arc<dyn tracing_core::Collect + Send + Sync>),
+            _ => Dispatch::new(c),
+        });
     }
     let sh = Arc::new(Shared::default());
     let mut pool = Pool { txs: HashMap::new(), hs: vec![], sh: sh.clone() };
@@ -192,11 +198,24 @@ fn child() {
                 sh.handles.lock().unwrap().insert(h2, Box::new(s));
                 json!(id)
             }),
-            "drop" => pool.run(t, move |_, sh| {
-                let s = sh.handles.lock().unwrap().remove(&h);
-                drop(s);
-                json!(0)
-            }),
+            "drop" => {
+                // `unwind`: the handle is owned by a frame that panics, i.e. it is dropped while the thread is unwinding
+                let unwind = step["unwind"].as_bool().unwrap_or(false);
+                pool.run(t, move |_, sh| {
+                    let s = sh.handles.lock().unwrap().remove(&h);
+                    if unwind {
+                        let _ = vh_common::catch(move || {
+                            let _owned = s;
+                            if true {
+                                panic!("frame owning a span handle unwinds");
+                            }
+                        });
+                    } else {
+                        drop(s);
+                    }
+                    json!(0)
+                })
+            }
             "enter" => pool.run(t, move |c, sh| {
                 let p = span_ptr(sh, h);
                 let e: Entered<'static> = unsafe { std::mem::transmute((&*p).enter()) };
